@@ -40,6 +40,11 @@ claimed = {
   "note": NOTE_COMMON + "Same models as C01; the rewrite engine of the harness (mode_prog.mjs) is trusted to apply the named rewrite.",
   "technique": "Lean 4 proof (permutation invariance of the reference folds, unfolding lemmas) + pairwise differential compilation with model prediction",
   "design": "§5 C08", "engines": ["lean-model", "beffh", "js-host"]},
+ "C15": {
+  "text": "Lean 4: a text-level model of describe() (every describeTypeExpr, member printing, reference counting, alias extraction, Codec wrapper) for which describe_definitions_nodup is proved for every runtime tree, environment and fuel (no named type is declared twice), with kernel-checked witnesses for the repaired D24 and for the two shapes whose text is not faithful TypeScript (D43 mixed index objects, D24c template alternations). Tie: the model's text (through the Lean compiler model incl. the derived Ord of RuntypeKind that fixes union order) must equal the REAL describe() text verbatim. Search: the real text is compiled again by the real compiler and generation 1 / generation 2 validators are compared on values and hash256; every alias is checked to be declared once.",
+  "note": NOTE_COMMON + "Model/Describe.lean + Model/IR.lean (derived Ord, debug_print sort keys); printed names of generic instances are not modelled (those programs: round trip only).",
+  "technique": "Lean 4 proof (invariant over the describe traversal, decide +kernel text witnesses) + verbatim text correspondence + real two-generation round trip",
+  "design": "§5 C15", "engines": ["lean-model", "beffh", "js-host"]},
 }
 pending_reason = "not yet built in this round (planned: DESIGN.md §5/§8); no claim is made until its model, theorems and correspondence check exist"
 m = {"version": 1, "setup_cmd": "bin/setup",
